@@ -35,7 +35,9 @@ pub fn check_bytes(rep: &mut CaseReport, bytes: &[u8], f: Option<&SynthFont>, op
             if varies && !font.has(b"gvar") { rep.fail("table-called-for-by-source-missing", "gvar (outlines vary between masters)"); }
         }
         if !opts.skip_features {
-            if f.sources.iter().any(|s| s.kerning.as_ref().map(|k| k.pairs.values().any(|v| *v != 0.0)).unwrap_or(false)) && !font.has(b"GPOS") { rep.fail("table-called-for-by-source-missing", "GPOS (source has kerning)"); }
+            // a pair counts when both sides name at least one exported glyph (pairs with non-export or unknown glyphs are dropped)
+            let exported = |n: &String, k: &Kerning| -> bool { match k.groups.get(n) { Some(m) => m.iter().any(|x| f.glyph(x).map(|g| g.export).unwrap_or(false)), None => f.glyph(n).map(|g| g.export).unwrap_or(false) } };
+            if f.sources.iter().any(|s| s.kerning.as_ref().map(|k| k.pairs.iter().any(|((a, b), v)| *v != 0.0 && exported(a, k) && exported(b, k))).unwrap_or(false)) && !font.has(b"GPOS") { rep.fail("table-called-for-by-source-missing", "GPOS (source has kerning)"); }
             if !f.rules.is_empty() && !font.has(b"GSUB") { rep.fail("table-called-for-by-source-missing", "GSUB (source has rules)"); }
         }
     }
